@@ -57,6 +57,8 @@ const WRITER_RECV_TIMEOUT: Duration = Duration::from_millis(50);
 /// Under sustained load, flush at least this often so a crash can't lose
 /// more than this window of buffered output.
 const MAX_FLUSH_INTERVAL: Duration = Duration::from_millis(250);
+/// How long an appender task waits at shutdown for sends that were already in flight.
+const FINAL_DRAIN_WAIT: Duration = Duration::from_millis(500);
 /// Bound on how many queued messages are drained per wakeup, so a firehose
 /// producer can't starve the periodic flush.
 const WRITER_DRAIN_BATCH_MAX: usize = 256;
@@ -483,9 +485,22 @@ fn run_byte_appender_writer(
   }
 
   // --- Final Flush on Shutdown ---
-  // Drain any messages that arrived just before shutdown, then flush.
-  while let Ok(bytes) = rx.try_recv() {
-    write_one(&mut *writer, &bytes, &mut is_dirty, appender_name, error_tx);
+  // Drain any messages that arrived just before shutdown, then flush. A producer that
+  // claimed its queue slot before the shutdown may still be filling it: the queue then hands
+  // out nothing although it is not empty, and every message queued behind that slot - events
+  // accepted before the shutdown began - would be lost if the task left now. Wait for such
+  // in-flight sends (bounded, so a producer that never finishes cannot hold the task).
+  let drain_deadline = Instant::now() + FINAL_DRAIN_WAIT;
+  loop {
+    match rx.try_recv() {
+      Ok(bytes) => write_one(&mut *writer, &bytes, &mut is_dirty, appender_name, error_tx),
+      Err(_) => {
+        if rx.is_empty() || Instant::now() >= drain_deadline {
+          break;
+        }
+        thread::yield_now();
+      }
+    }
   }
   if is_dirty {
     flush(
